@@ -20,7 +20,7 @@ RULE = ('Case = a fresh _Configuration() (argv neutralised; optionally construct
         '(declared with default / without / declared later / never declared / flag-provided) + invalid names: declare, redeclare, '
         'load(**kw), load_from_dict, load_from_file (JSON/YAML text via StringIO, malformed text, non-dict), each with _override '
         'and _allow_undeclared in {T,F}, load_flag_values(Namespace), reset, attribute assignment, save_and_restore (plain / with '
-        'inline values; wrapped function loads, resets, raises, nests another save_and_restore).  Oracle = three-dict reference '
+        'inline values; wrapped function loads, resets, nests another save_and_restore, returns or raises Exception / KeyboardInterrupt / SystemExit / ThreadTerminationError).  Oracle = three-dict reference '
         'model (declarations, loaded, flags): after EVERY op, for every key: conf[k], getattr(conf,k), k in conf, holder.value and '
         '_asdict().get(k) agree with the model (value or the specific exception); rejected ops raise the documented exception; '
         'save_and_restore restores exactly the loaded dict present at call time also on exception; reset keeps flags and re-loads '
@@ -192,13 +192,23 @@ class Runner(object):
         inline, inner, raises, paren = dict(op[1]), op[2], op[3], op[4]
         saved = dict(model.loaded)
         state = {'ret': None}
+        # how the wrapped function ends: normally, with an ordinary exception, or with one of the BaseExceptions a phase
+        # body really ends with (Ctrl-C, sys.exit(), the kill of a timed-out/aborted phase thread)
+        raises = 'Inner' if raises is True else raises
+        if raises == 'ThreadTerminationError':
+          from openhtf.util import threads as _threads  # pylint: disable=g-import-not-at-top
+          exc_type = _threads.ThreadTerminationError
+        else:
+          exc_type = {'Inner': Inner, 'KeyboardInterrupt': KeyboardInterrupt, 'SystemExit': SystemExit}.get(raises)
+        if raises:
+          self.flags_hit['sar_raises_' + raises] = True
 
         def fn(token):
           # inside: inline values have been loaded (declared ones only, overriding)
           self.compare_all(conf, model, when + ' [inside]')
           res = self.run_ops(conf, model, inner, depth + 1)
           if raises:
-            raise Inner('inner')
+            raise exc_type('inner')
           return token
 
         model_inline = {k: v for k, v in inline.items()}
@@ -207,11 +217,14 @@ class Runner(object):
         else:
           wrapped = conf.save_and_restore(fn)
         model.load(model_inline, True, False)
-        got = call(wrapped, 'tok')
+        try:
+          got = ('value', wrapped('tok'))
+        except BaseException as e:  # pylint: disable=broad-except
+          got = ('exc', type(e).__name__)
         if inner:
           self.flags_hit['restore_after_inner_load'] = True
         model.loaded = saved
-        want = ('exc', 'Inner') if raises else ('value', 'tok')
+        want = ('exc', raises) if raises else ('value', 'tok')
         if got != want:
           self.bad('C20/save-and-restore-result', '%s: wrapper gave %r, expected %r' % (when, got, want))
       else:
@@ -259,7 +272,7 @@ def check(case):
       except Exception:  # pylint: disable=broad-except
         pass
       os.unlink(tmp.name)
-  r.nontrivial = any(run.flags_hit.values())
+  r.nontrivial = any(v for k, v in run.flags_hit.items() if not k.startswith('sar_raises_'))
   r.classes = [k for k, v in run.flags_hit.items() if v] + ['ops:%d' % (len(case['ops']) // 10 * 10)] + (['file'] if case['file'] is not None else []) + (
       ['ctor-flags'] if case['flags'] else [])
   return r
@@ -269,6 +282,7 @@ def check(case):
 VALS = st.one_of(st.integers(-3, 9), st.sampled_from(['s', '', 'abc', None, True, False, 1.5]), st.lists(st.integers(0, 3), max_size=2),
                  st.dictionaries(st.sampled_from(['a', 'b']), st.integers(0, 3), max_size=2))
 KEY = st.sampled_from(KEYS)
+RAISES = st.sampled_from([False, False, False, 'Inner', 'Inner', 'KeyboardInterrupt', 'SystemExit', 'ThreadTerminationError'])
 PAIRS = st.lists(st.tuples(st.one_of(KEY, KEY, KEY, st.sampled_from(['zz'])), VALS).map(list), max_size=3, unique_by=lambda p: p[0])
 FLAGPAIRS = st.lists(st.tuples(KEY, st.sampled_from(sorted(FLAG_TABLE))).map(list), max_size=2)
 
@@ -284,8 +298,8 @@ def ops(depth):
       st.tuples(st.just('setattr'), KEY, VALS).map(list),
   ]
   if depth < 2:
-    base.append(st.tuples(st.just('save_restore'), PAIRS, st.lists(st.deferred(lambda: ops(depth + 1)), max_size=4), st.booleans(), st.booleans()).map(list))
-    base.append(st.tuples(st.just('save_restore'), PAIRS, st.lists(st.deferred(lambda: ops(depth + 1)), min_size=1, max_size=4), st.booleans(), st.booleans()).map(list))
+    base.append(st.tuples(st.just('save_restore'), PAIRS, st.lists(st.deferred(lambda: ops(depth + 1)), max_size=4), RAISES, st.booleans()).map(list))
+    base.append(st.tuples(st.just('save_restore'), PAIRS, st.lists(st.deferred(lambda: ops(depth + 1)), min_size=1, max_size=4), RAISES, st.booleans()).map(list))
   return st.one_of(*base)
 
 
